@@ -27,6 +27,10 @@ def main():
     # event-grouped runs: updates of other markets of the same event in between
     scs2 = [simgen.gen_scenario(rng, dict(opts, nmarkets=[2, 3], group=True, same_time=True, p_close=0.3)) for _ in range(n // 2)]
     simcheck.run_family(ck, "timing_event_groups", scs2, propcheck.c07, "C07", "timing-groups")
+    # requests for ANOTHER market of the event than the one whose update is being processed (placements and cancels/updates/replaces of orders
+    # resting there): the request time is the time of the update being processed, the bet delay that of the target market
+    scs5 = [simgen.gen_scenario(rng, dict(opts, nmarkets=[2, 3], group=True, same_time=True, p_close=0.3, p_cross=0.3)) for _ in range(n // 2)]
+    simcheck.run_family(ck, "cross_market_requests", scs5, propcheck.c07, "C07", "timing-cross")
     # custom latencies (whole ms), away from the exact boundary only by construction of the generator's steps
     scs3 = []
     for _ in range(n // 3):
